@@ -296,8 +296,19 @@ fn price_of(cid: u8) -> Decimal {
     Decimal::from(100 + cid as u32)
 }
 
+/// Exchange order id stated by a report made at exchange time `t`. Venues re-number an order when it is
+/// amended and render ids differently per endpoint, so the id is not constant over an order's life and
+/// the string order of two ids says nothing about their age (for t % 3 == 1 the older id is the larger).
+fn oid_of(cid: u8, t: i64) -> OrderId {
+    OrderId::new(match t.rem_euclid(3) {
+        0 => format!("oid-{cid}"),
+        1 => format!("oid-{cid}-{:03}", 999 - t.clamp(0, 999)),
+        _ => format!("oid-{cid}-a{t}"),
+    })
+}
+
 fn open_of(cid: u8, o: &O) -> Open {
-    Open { id: OrderId::new(format!("oid-{cid}")), time_exchange: ts(T0_MS + o.t * 1000), filled_quantity: Decimal::from(o.filled) }
+    Open { id: oid_of(cid, o.t), time_exchange: ts(T0_MS + o.t * 1000), filled_quantity: Decimal::from(o.filled) }
 }
 
 fn order_with<S>(p: &Params, cid: u8, engine_layer: bool, state: S) -> Order<ExchangeIndex, InstrumentIndex, S> {
@@ -319,7 +330,7 @@ fn snapshot_order(p: &Params, cid: u8, engine_layer: bool, input: &In) -> Option
         In::RepCancelInFlight(o) => OrderState::active(CancelInFlight { order: o.as_ref().map(|o| open_of(cid, o)) }),
         In::RepInactive(Inactive::FullyFilled) => OrderState::fully_filled(),
         In::RepInactive(Inactive::Expired) => OrderState::expired(),
-        In::RepInactive(Inactive::Cancelled(t)) => OrderState::inactive(Cancelled { id: OrderId::new(format!("oid-{cid}")), time_exchange: ts(T0_MS + t * 1000) }),
+        In::RepInactive(Inactive::Cancelled(t)) => OrderState::inactive(Cancelled { id: oid_of(cid, *t), time_exchange: ts(T0_MS + t * 1000) }),
         In::RepInactive(Inactive::OpenFailed) => OrderState::inactive(OrderError::Rejected(ApiError::OrderRejected("rejected".into()))),
         _ => return None,
     };
@@ -334,7 +345,7 @@ fn cancel_response(p: &Params, cid: u8, engine_layer: bool, input: &In) -> Order
     OrderResponseCancel {
         key: key(p, cid, engine_layer),
         state: match input {
-            In::CancelOk(t) => Ok(Cancelled { id: OrderId::new(format!("oid-{cid}")), time_exchange: ts(T0_MS + t * 1000) }),
+            In::CancelOk(t) => Ok(Cancelled { id: oid_of(cid, *t), time_exchange: ts(T0_MS + t * 1000) }),
             In::CancelErr(kind) => Err(match kind % 6 {
                 0 => OrderError::Connectivity(ConnectivityError::Timeout),
                 1 => OrderError::Connectivity(ConnectivityError::Socket("closed".into())),
@@ -379,10 +390,10 @@ fn observe(p: &Params, cid: u8, engine_layer: bool, order: Option<&Order<Exchang
         return Err(format!("entry for {} carries another order's static data: {:?}", cid_name(cid), order));
     }
     let conv = |open: &Open| -> Result<O, String> {
-        if open.id != OrderId::new(format!("oid-{cid}")) {
-            return Err(format!("entry for {} holds exchange order id {:?}", cid_name(cid), open.id));
-        }
         let t = (open.time_exchange - ts(T0_MS)).num_seconds();
+        if open.id != oid_of(cid, t) {
+            return Err(format!("entry for {} holds exchange order id {:?} next to the timestamp of the report that stated {:?}", cid_name(cid), open.id, oid_of(cid, t)));
+        }
         let filled = u8::try_from(open.filled_quantity).map_err(|_| format!("bad filled quantity {}", open.filled_quantity))?;
         Ok(O { t, filled })
     };
